@@ -17,7 +17,7 @@ def run(ctx):
     r.not_decided = ["Reference.__eq__ semantics (library)"]
     run_kernels(ctx, ["K13", "K16"], "C10")
     ctx.guard(builtin_method_lint, ctx, "C10.builtin-method", scope=("moclo.core._assembly", "moclo.core._utils"))
-    r.floors["C10.builtin-method"] = 1
+    r.floors["C10.builtin-method"] = 0  # a lint (kept alive by its own fixture): no site is a legitimate state
     from ..rules_misc import fragment_cache_rule
     ctx.guard(fragment_cache_rule, ctx, "C10.no-fragment-cache")
     from ..rules_flow import k17_entry
